@@ -106,6 +106,7 @@ class Acc(object):
         self.classes = collections.Counter()
         self.filtered = collections.Counter()
         self.nontrivial = set()
+        self.nontrivial_count = 0   # cases the harness enumerates without repetition (no hashing needed)
         self.violations = {}      # sig-hash -> dict (first = simplest)
         self.viol_counts = collections.Counter()
         self.samples = {}         # class -> sample case
@@ -118,7 +119,7 @@ class Acc(object):
         self.order = 0            # position of first violation in enumeration
 
     # -- recording
-    def case(self, case, cls=None, nontrivial=True):
+    def case(self, case, cls=None, nontrivial=True, unique=False):
         """Record one evaluated case.  `case` is JSON-able or a callable
         producing it lazily (only evaluated for samples / keys)."""
         self.evaluations += 1
@@ -126,7 +127,9 @@ class Acc(object):
             self.classes[cls] += 1
             if cls not in self.samples:
                 self.samples[cls] = case() if callable(case) else case
-        if nontrivial:
+        if nontrivial and unique:
+            self.nontrivial_count += 1
+        elif nontrivial:
             c = case() if callable(case) else case
             self.nontrivial.add(h64(canon(c)))
 
@@ -154,6 +157,7 @@ class Acc(object):
         self.classes.update(other.classes)
         self.filtered.update(other.filtered)
         self.nontrivial |= other.nontrivial
+        self.nontrivial_count += other.nontrivial_count
         for hk, v in other.violations.items():
             v = dict(v)
             v['order'] = (shard_index, v['order'])
@@ -322,7 +326,7 @@ def finish(mod, acc, tier, seed, wall, nshards):
         samples.append({'class': c, 'case': acc.samples[c]})
     cov = {
         'evaluations': acc.evaluations,
-        'distinct_nontrivial': len(acc.nontrivial),
+        'distinct_nontrivial': len(acc.nontrivial) + acc.nontrivial_count,
         'rule': mod.RULE,
         'samples': samples or [{'note': 'no classed samples'}],
         'exhaustive': not acc.caps_hit,
@@ -354,7 +358,7 @@ def finish(mod, acc, tier, seed, wall, nshards):
         print(l)
     print('%s tier=%s seed=%d evaluations=%d distinct_nontrivial=%d states=%d transitions=%d '
           'classes=%d violations=%d known=%d wall=%.1fs' % (
-              prop, tier, seed, acc.evaluations, len(acc.nontrivial), acc.states,
+              prop, tier, seed, acc.evaluations, len(acc.nontrivial) + acc.nontrivial_count, acc.states,
               acc.transitions, len(acc.classes), len(new), len(matched), wall))
     sys.stdout.flush()
     return exit_code
